@@ -182,8 +182,10 @@ func (h *Handler) Handle(req, resp dhcpv6.DHCPv6) (dhcpv6.DHCPv6, bool) {
 		// Then handle the empty hints, by giving out any remaining lease we
 		// have already assigned to this client
 		for hintIdx, h := range hints {
+			// An empty hint has no address at all (no IAPrefix option, or a
+			// prefix-length of 0) or the unspecified address (length-only hint)
 			if satisfied.Test(uint(hintIdx)) ||
-				(h.Prefix != nil && !h.Prefix.IP.Equal(net.IPv6zero)) {
+				(len(h.Prefix.IP) != 0 && !h.Prefix.IP.Equal(net.IPv6zero)) {
 				continue
 			}
 			for leaseIdx, l := range knownLeases {
